@@ -4,6 +4,7 @@ Translator leg for C18: facts extracted from the Rust source by tools/gen_consta
 structure in the Rust breaks exactly these obligations, independently of the correspondence run.
 -/
 import WowSrp.Gen.Constants
+import WowSrp.Gen.Facts
 namespace WowSrp
 
 /-- C18: MD5(seed | session key) keys both RC4 and the HMAC; each entered value is MACed after encryption -/
